@@ -199,6 +199,8 @@ def run(ctx):
             if abs(z) > 1e-9 or not (nz >= 0 and math.isfinite(nz)):
                 ctx.violation('multiplane_loss: value at identity %g, random %g' % (z, nz), {'channels': ch, 'plane': pid},
                               {'class': 'multiplane_loss', 'what': 'zero_at_identity'})
+    multiplane_family(ctx)
+    simple_losses_more(ctx)
     pg = LW.phase_gradient()
     sc = LW.speckle_contrast(kernel_size=3)
     for _ in range(ctx.n(5, 40)):
@@ -219,9 +221,176 @@ def run(ctx):
 
     __import__('harness.props.genlosses', fromlist=['x']).check_generated_losses(ctx)   # regenerated loss formulas vs /repo
 
+def multiplane_eval(rec):
+    """multiplane_loss / perceptual_multiplane_loss from a record: returns list of (what, text)"""
+    import odak.learn.wave as LW
+    ch, h, w, planes = rec['channels'], rec['h'], rec['w'], rec['planes']
+    g = torch.Generator().manual_seed(rec['torch_seed'])
+    img = torch.rand(ch, h, w, generator=g)
+    dep = torch.rand(h, w, generator=g)
+    if rec['depth'] == 'constant':
+        dep = torch.full((h, w), 0.4)
+    elif rec['depth'] == 'levels':
+        dep = torch.randint(0, planes, (h, w), generator=g).float() / max(1, planes - 1)
+    kw = dict(number_of_planes=planes, target_blur_size=rec['blur_size'], scheme=rec['scheme'], reduction=rec['reduction'], multiplier=rec['multiplier'],
+              blur_ratio=rec['blur_ratio'])
+    if rec['class'] == 'perceptual_multiplane_loss':
+        kw['additional_loss_weights'] = dict(rec['additional'])
+        kw['return_components'] = rec['return_components']
+        if rec['base_weights'] is not None:
+            kw['base_loss_weights'] = dict(rec['base_weights'])
+        loss = LW.perceptual_multiplane_loss(img, dep, **kw)
+    else:
+        if rec['base_weights'] is not None:
+            kw['weights'] = list(rec['base_weights'])
+        loss = LW.multiplane_loss(img, dep, **kw)
+    targets = loss.get_targets()[0]
+    fails = []
+    if tuple(targets.shape) != (planes, ch, h, w) or not torch.isfinite(targets).all():
+        return [('targets', 'get_targets() returns shape %s / non-finite values for %d planes of a %dx%dx%d image' % (tuple(targets.shape), planes, ch, h, w))]
+    base_only = rec['class'] == 'multiplane_loss' or not rec['additional']
+
+    def val(image, target, pid):
+        out = loss(image, target, plane_id=pid)
+        comps = None
+        if isinstance(out, tuple):
+            out, comps = out
+        return out, comps
+    other = torch.rand(ch, h, w, generator=g)
+    for pid in [None] + list(range(planes)):
+        tg = targets[pid] if pid is not None else targets[rec['torch_seed'] % planes]
+        z, zc = val(tg.clone(), tg.clone(), pid)
+        nz, nc = val(other, tg.clone(), pid)
+        again, _ = val(other, tg.clone(), pid)                    # same arguments after other calls on the object: same value
+        if not (torch.isfinite(nz).all() and torch.isfinite(z).all()):
+            if base_only or not torch.isfinite(nz).all():
+                fails.append(('finite', 'plane_id=%s: value %s at identity, %s for a random image' % (pid, z.reshape(-1)[:3].tolist(), nz.reshape(-1)[:3].tolist())))
+            continue
+        if base_only and float(z.abs().max()) > 1e-9:
+            fails.append(('zero_at_identity', 'plane_id=%s: value %g for image = target' % (pid, float(z.abs().max()))))
+        if base_only and float(nz.min()) < 0:
+            fails.append(('negative', 'plane_id=%s: value %g for a random image' % (pid, float(nz.min()))))
+        if base_only and rec['multiplier'] != 0 and not float(nz.sum()) > 0:
+            fails.append(('positive', 'plane_id=%s: value %g for an image that differs from the target' % (pid, float(nz.sum()))))
+        if not torch.equal(nz, again):
+            fails.append(('history', 'plane_id=%s: the same call gives %g and then %g' % (pid, float(nz.sum()), float(again.sum()))))
+        if rec['reduction'] != 'none' and nz.numel() != 1:
+            fails.append(('scalar', 'plane_id=%s: reduction %r returns %s' % (pid, rec['reduction'], tuple(nz.shape))))
+        if nc is not None:
+            tot = sum(v for v in nc.values())
+            if not torch.allclose(tot, nz, rtol=1e-5, atol=1e-7) or any(float(torch.as_tensor(v).min()) < 0 for k_, v in nc.items() if k_.startswith('l')):
+                fails.append(('components', 'plane_id=%s: the returned components %s do not add up to the loss %g / a base component is negative'
+                              % (pid, {k_: float(torch.as_tensor(v).sum()) for k_, v in nc.items()}, float(nz.sum()))))
+    return fails
+
+
+def multiplane_family(ctx):
+    rng = ctx.rng
+    ADD = [{}, {}, {}, {'ssim': 1.}, {'msssim': 0.5}, {'cvvdp': 1.}, {'lpips': 1.}, {'fvvdp': 1.}]
+    k = 0
+    for cls in ('multiplane_loss', 'perceptual_multiplane_loss'):
+        for planes in (1, 2, 3, 4):
+            for scheme in ('defocus', 'naive'):
+                for rep_ in range(ctx.n(1, 4)):
+                    k += 1
+                    ch = 3 if k % 3 else 1
+                    h, w = [(12, 10), (9, 16), (8, 8), (7, 5)][k % 4]
+                    rec = {'class': cls, 'channels': ch, 'h': h, 'w': w, 'planes': planes, 'scheme': scheme,
+                           'reduction': ['mean', 'sum', 'mean', 'none'][k % 4] if cls == 'multiplane_loss' or k % 4 != 3 else 'mean',
+                           'multiplier': [1.0, 1.0, 0.5, 2.0][(k // 2) % 4], 'blur_size': [3, 4, 5][k % 3], 'blur_ratio': [0.25, 1.0, 0.5][(k // 3) % 3],
+                           'depth': ['random', 'levels', 'random', 'constant'][(k // 2) % 4], 'torch_seed': rng.randrange(10 ** 6),
+                           'additional': ADD[k % len(ADD)] if cls == 'perceptual_multiplane_loss' else {}, 'return_components': bool(k % 2),
+                           'base_weights': None}
+                    if k % 5 == 0:
+                        rec['base_weights'] = [rng.uniform(0.1, 3) for _ in range(3)] if cls == 'multiplane_loss' else \
+                            {n_: rng.uniform(0.1, 3) for n_ in ('base_l2_loss', 'loss_l2_mask', 'loss_l2_cor', 'base_l1_loss', 'loss_l1_mask', 'loss_l1_cor')}
+                    ctx.case((cls, planes, scheme, ch, h, w, rec['reduction'], rec['torch_seed']), True, rec if len(ctx.samples) < 6 else None)
+                    ctx.count('%s/%d planes/%s/%s' % (cls, planes, scheme, rec['reduction']))
+                    if rec['additional']:
+                        ctx.count('perceptual_multiplane_loss/additional=%s' % sorted(rec['additional'])[0])
+                    try:
+                        fails = multiplane_eval(rec)
+                    except Exception as e:
+                        ctx.violation('%s raised %r' % (cls, e), rec, {'class': cls, 'what': 'raises', 'additional': sorted(rec['additional'])[0] if rec['additional'] else None})
+                        continue
+                    for what, text in fails:
+                        ctx.violation('%s (%d planes, %s, %s): %s' % (cls, planes, scheme, rec['reduction'], text), rec, {'class': cls, 'what': what, 'planes': planes})
+
+
+def simple_losses_more(ctx):
+    """multi_scale_total_variation_loss (every level count the frame size allows, every documented frame shape) and histogram_loss (bin counts, limits,
+    every documented frame shape): finite, non-negative, zero on a uniform frame / at identity"""
+    import odak.learn.tools as LT
+    rng = ctx.rng
+    SH = [(1, 3, 8, 12), (3, 8, 8), (12, 8), (5, 7), (1, 3, 9, 6), (16, 16), (1, 1, 4, 4), (2, 2)]
+    for k in range(ctx.n(24, 200)):
+        shape = SH[k % len(SH)]
+        a = torch.rand(*shape, generator=torch.Generator().manual_seed(rng.randrange(10 ** 6))) * rng.choice([1.0, 1.0, 5.0])
+        if k % 6 == 0:
+            a = a.double()
+        maxlev = 1
+        side = min(shape[-2:])
+        while side // 2 >= 1:
+            maxlev, side = maxlev + 1, side // 2
+        prev = None
+        for levels in range(1, min(maxlev, 5) + 1):
+            rec = {'loss': 'multi_scale_total_variation_loss', 'shape': list(shape), 'levels': levels}
+            ctx.case(('mstv', shape, levels, float(a.reshape(-1)[0])), True)
+            ctx.count('multi_scale_total_variation_loss/levels=%d' % levels)
+            try:
+                v = float(LT.multi_scale_total_variation_loss(a, levels=levels))
+                u = float(LT.multi_scale_total_variation_loss(torch.full_like(a, 0.3), levels=levels))
+            except Exception as e:
+                ctx.violation('multi_scale_total_variation_loss(levels=%d) raised %r for a frame of shape %s' % (levels, e, shape), rec,
+                              {'class': 'multi_scale_total_variation_loss', 'what': 'raises'})
+                break
+            if not (math.isfinite(v) and v >= 0):
+                ctx.violation('multi_scale_total_variation_loss is negative or not finite: %g' % v, rec, {'class': 'multi_scale_total_variation_loss', 'what': 'negative'})
+            if abs(u) > 1e-9:
+                ctx.violation('multi_scale_total_variation_loss of a uniform frame is %g' % u, rec, {'class': 'multi_scale_total_variation_loss', 'what': 'zero_at_identity'})
+            if levels == 1 and abs(v - float(LT.total_variation_loss(a))) > 1e-6 * max(1.0, v):
+                ctx.violation('multi_scale_total_variation_loss with one level (%g) is not the total variation loss (%g)' % (v, float(LT.total_variation_loss(a))), rec,
+                              {'class': 'multi_scale_total_variation_loss', 'what': 'one_level'})
+            if prev is not None and v < prev - 1e-6 * max(1.0, prev):
+                ctx.violation('multi_scale_total_variation_loss decreases when a level is added: %g -> %g' % (prev, v), rec,
+                              {'class': 'multi_scale_total_variation_loss', 'what': 'sum_of_levels'})
+            prev = v
+    HS = [(1, 3, 6, 5), (3, 6, 5), (1, 7, 4), (9, 8), (1, 1, 5, 5), (1, 3, 16, 16)]
+    for k in range(ctx.n(30, 240)):
+        shape = HS[k % len(HS)]
+        bins = [1, 2, 3, 8, 32, 64, 256][k % 7]
+        limits = [[0., 1.], [0., 1.], [0., 2.], [-1., 1.], [0.25, 0.75]][(k // 7) % 5]
+        g = torch.Generator().manual_seed(rng.randrange(10 ** 6))
+        a, b = torch.rand(*shape, generator=g), torch.rand(*shape, generator=g)
+        if k % 4 == 0:
+            b = torch.full(shape, 0.5)
+        rec = {'loss': 'histogram_loss', 'shape': list(shape), 'bins': bins, 'limits': limits}
+        ctx.case(('hist', shape, bins, tuple(limits), float(a.reshape(-1)[0])), True)
+        ctx.count('histogram_loss/bins=%d' % bins)
+        try:
+            v, z, sym = float(LT.histogram_loss(a, b, bins=bins, limits=limits)), float(LT.histogram_loss(a, a.clone(), bins=bins, limits=limits)), \
+                float(LT.histogram_loss(b, a, bins=bins, limits=limits))
+            same_shape_other_layout = float(LT.histogram_loss(a.reshape(shape[-3:] if len(shape) == 4 else shape), a, bins=bins, limits=limits))
+        except Exception as e:
+            ctx.violation('histogram_loss(bins=%d, limits=%s) raised %r for frames of shape %s' % (bins, limits, e, shape), rec, {'class': 'histogram_loss', 'what': 'raises'})
+            continue
+        if not (math.isfinite(v) and v >= 0):
+            ctx.violation('histogram_loss(bins=%d) is negative or not finite: %g' % (bins, v), rec, {'class': 'histogram_loss', 'what': 'negative'})
+        if abs(z) > 1e-9 or abs(same_shape_other_layout) > 1e-9:
+            ctx.violation('histogram_loss(bins=%d) of a frame with itself is %g (%g when one copy has no batch dimension)' % (bins, z, same_shape_other_layout), rec,
+                          {'class': 'histogram_loss', 'what': 'zero_at_identity'})
+        if abs(v - sym) > 1e-6 * max(1.0, v):
+            ctx.violation('histogram_loss(a, b) = %g but histogram_loss(b, a) = %g' % (v, sym), rec, {'class': 'histogram_loss', 'what': 'symmetric'})
+
+
 def replay(ctx, rep):
     import odak.learn.perception as P
     r = rep['replay']
+    if r.get('class') in ('multiplane_loss', 'perceptual_multiplane_loss') and 'torch_seed' in r:
+        fails = multiplane_eval(r)
+        for f in fails:
+            print('fails:', f[1])
+        return not fails
     if 'sequence' not in r or 'class' not in r:
         return True
     print('replay of', r['class'], r['sequence'], '- run ./check C17 for the full comparison')
